@@ -63,6 +63,27 @@ func BuildEnvelope(
 		return nil, ErrInvalidThreshold
 	}
 
+	// Validate that the envelope can be opened at all: shares are dealt to
+	// the grants in order until totalShares runs out, and only the shares in
+	// a grant with at least one keypair can ever be recovered. The shares that
+	// reach such grants must be enough to reconstruct the secret.
+	remainingShares := uint64(totalShares)
+	var recoverableShares uint64
+	for _, gc := range grants {
+		sc := uint64(gc.GetShareCount())
+		if sc == 0 {
+			sc = 1
+		}
+		sc = min(sc, remainingShares)
+		remainingShares -= sc
+		if len(gc.GetKeypairIndexes()) != 0 {
+			recoverableShares += sc
+		}
+	}
+	if recoverableShares < uint64(threshold)+1 {
+		return nil, ErrInvalidThreshold
+	}
+
 	// Generate random Ristretto255 scalar as the master secret.
 	g := group.Ristretto255
 	secret := g.RandomNonZeroScalar(rnd)
